@@ -54,6 +54,27 @@ func witnessStillFails(path string) bool {
 	return runReplayFile(path, nil) != nil
 }
 
+// regressFixed re-executes, as plain regression cases, the witnesses of every finding of prop that
+// is recorded as fixed: a recurrence is a violation. Known (unrepaired) findings are not run here.
+func regressFixed(t *testing.T, c *hx.Collector, fs *hx.FindingSet, prop string) {
+	for _, f := range fs.All() {
+		if f.Property != prop || f.Status != "fixed" || f.Witness == "" {
+			continue
+		}
+		err := runReplayFile(f.Witness, fs)
+		c.Count("regress:"+f.ID, false, "regression-witness")
+		if err != nil {
+			d, _ := loadReplay(f.Witness)
+			var tr interface{}
+			if d != nil {
+				json.Unmarshal(d.Trace, &tr)
+			}
+			c.Violate("regress-"+f.ID, fmt.Sprintf("fixed finding %s (%s) has returned: %v", f.ID, f.Commit, err), tr)
+			t.Errorf("fixed finding %s has returned: %v", f.ID, err)
+		}
+	}
+}
+
 // TestReplay re-executes the file named by VERIF_REPLAY (./check Cxx --replay file).
 func TestReplay(t *testing.T) {
 	p := os.Getenv("VERIF_REPLAY")
